@@ -296,6 +296,9 @@ func oracleC16Server(run *Run) {
 			run.fail("C16", "deadline-left-armed", "server", "Upgrade succeeded with a write deadline still armed (%d ns)", wr)
 		}
 		_ = rd
+		if log.StateAtReturn && (log.RdAtReturn != -1 || log.WrAtReturn != -1) {
+			run.fail("C16", "deadline-left-armed", "server", "Upgrade returned a connection with a handshake deadline still armed (read %d ns, write %d ns; -1 = none)", log.RdAtReturn, log.WrAtReturn)
+		}
 		return
 	}
 	// failure
